@@ -330,8 +330,16 @@ theorem dsim_step {st : St} {sp : Spec} (hR : R st sp.l) (hD : D st.fs sp.l sp.d
   | rmdirAll p => simp [fragOk] at hf
   | unlink p => simp [fragOk] at hf
   | rename p q => simp [fragOk] at hf
-  | readDir p => simp [fragOk] at hf
-  | dump pool => simp [fragOk] at hf
+  | readDir p =>
+    simp only [step, sStep, lStep, dStep]
+    have e1 : (if dirExists st.fs p = true then (st, Obs.entries (dirEntryNames st.fs p))
+        else (st, Obs.err Err.notfound)).1 = st := by
+      split <;> rfl
+    rw [e1]
+    split <;> exact hD
+  | dump pool =>
+    simp only [step, sStep, lStep, dStep]
+    exact hD
   | crash => simp [fragOk] at hf
 
 end TV.Fs
